@@ -13,7 +13,8 @@ import dbgen
 import dbtie
 
 ALPHA = csvtie.ALPHA + ["_none", "_tag_", "_field_", "t_", "f_", "tt", "ft", "_t", "é", " ", "\x1c", "\U0001F600"]
-KEY_HEADS = ["", "t", "f", "_", "t_", "f_", "_tag_", "_field_", "tf", "ft", "a", "_none", ",", '"', "\n"]
+KEY_HEADS = ["", "t", "f", "_", "t_", "f_", "_tag_", "_field_", "tf", "ft", "a", "_none", ",", '"', "\n",
+             "cafe\u0301", "caf\u00e9", "\u212b", "\u00c5", "\u2126", "\u03a9", "\u1100\u1161", "\\"]          # strings that differ only in their Unicode normal form are different keys
 SENTINEL_LIKE = ["\\x_none", "\\_none", "x_none", "_none_", "\\\\a_none", "_None", "__none", "\\", "\\\\", "_none\\", "\\n_none", "none", "_non"]
 def _us(y, mo, d, h=0, mi=0, s=0, us=0):
     from datetime import datetime, timezone, timedelta
@@ -23,9 +24,10 @@ def _us(y, mo, d, h=0, mi=0, s=0, us=0):
 FAR_INSTANTS = [_us(1, 1, 2), _us(1, 6, 15, 12, 0, 0, 123456), _us(999, 12, 31, 23, 59, 59, 999999), _us(1000, 1, 1), _us(1582, 10, 10),
                 _us(2999, 2, 28, 1, 2, 3, 4), _us(9999, 12, 30, 23, 59, 59, 999999)]
 EDGE = SENTINEL_LIKE + [" x", "x ", " ", "  ", "\tx", "x\t", '"', '""', "'", "''", 'a"b', "\r", "\n", "\r\n", "x\ny", ",", ";", "|", "\\", "\\n", "#x", "\ufeffx", "=1+1",
-        "_none ", " _none", "0", "-1", "1e5", "nan", "inf", "None", "t_x", "f_x", "_tag_x", "_field_x", "t", "f", "_", "é ", " \U0001F600"]
+        "C:\\temp\\new", "a\\", "a\\,b", "\\\"", "cafe\u0301", "caf\u00e9", "\u212b", "\u00c5", "_none ", " _none", "0", "-1", "1e5", "nan", "inf", "None", "t_x", "f_x", "_tag_x", "_field_x", "t", "f", "_", "é ", " \U0001F600"]
 DIALECTS = [dict(), dict(), dict(delimiter=";"), dict(delimiter="\t", quotechar="'"), dict(quoting=csv.QUOTE_ALL), dict(delimiter="|", quotechar="'", quoting=csv.QUOTE_ALL),
-            dict(lineterminator="\n"), dict(lineterminator="\r")]
+            dict(lineterminator="\n"), dict(lineterminator="\r"),
+            dict(escapechar="\\"), dict(escapechar="\\", quoting=csv.QUOTE_NONE), dict(escapechar="!"), dict(escapechar="\\", doublequote=False)]
 
 
 def rstr(rng, lo=0, hi=6):
